@@ -263,7 +263,7 @@ def register_extract_path(reg):
 # ---- find_component (C15): the set returned is closed under adjacency, contains the start node, avoids earlier components, and is sound ----
 ADJN = "lambda g, a, b: exists(lambda s, ov: (b, s, ov) in g.nodes[a].start or (b, s, ov) in g.nodes[a].end)"
 FC_M = {
-    "adj": ADJN,
+    "adj": ADJN, "R": "lambda a, b: comp(a) == comp(b)",
     "V": "lambda x: self.nodes[x].visited",
     "V0": "lambda x: old(self).nodes[x].visited",
     "queued": "lambda y: 0 <= qidx[y] < len(queue) and queue[qidx[y]] == y",
@@ -282,7 +282,7 @@ def register_components(reg):
     ))
     reg.add(Contract(
         file=GFA, func="GFA.find_component", params=dict(self=GFAT, start_node=STR), returns=SetT(STR), modifies=["self"],
-        types=dict(STR=STR, INT=INT), ufuns={"R": ([STR, STR], BOOL), "nbrpos": ([Node, STR], INT)}, spec_funcs=FC_M,
+        types=dict(STR=STR, INT=INT), ufuns={"comp": ([STR], INT), "nbrpos": ([Node, STR], INT)}, spec_funcs=FC_M,
         ghost=dict(qidx=MapT(STR, INT)),
         ghost_at={"after:queue.append(start_node)": "qidx[start_node] = len(queue) - 1", "after:queue.append(n)": "qidx[n] = len(queue) - 1"},
         locals=dict(queue=ListT(STR), cc=SetT(STR), neighbors=ListT(STR)),
@@ -292,9 +292,8 @@ def register_components(reg):
             "forall([STR, STR], lambda a, b: implies(a in self.nodes and adj(self, a, b), b in self.nodes and adj(self, b, a)))",
             # what all_components maintains: the nodes visited so far are closed under adjacency
             "forall([STR, STR], lambda a, b: implies(a in self.nodes and self.nodes[a].visited and adj(self, a, b), self.nodes[b].visited))",
-            # R: ANY equivalence relation that contains the links (soundness is proved for every such relation, hence for connectivity)
-            "forall(STR, lambda a: R(a, a)) and forall([STR, STR], lambda a, b: implies(R(a, b), R(b, a))) and "
-            "forall([STR, STR, STR], lambda a, b, c: implies(R(a, b) and R(b, c), R(a, c)))",
+            # R(a, b) := comp(a) == comp(b) for an UNINTERPRETED labelling comp that is constant along links: every equivalence relation that
+            # contains the links is of this form (label = class), so soundness is proved for every such relation, hence for connectivity
             "forall([STR, STR, INT, INT], lambda a, b, s, ov: implies(a in self.nodes and (b, s, ov) in self.nodes[a].start, R(a, b)))",
             "forall([STR, STR, INT, INT], lambda a, b, s, ov: implies(a in self.nodes and (b, s, ov) in self.nodes[a].end, R(a, b)))",
         ],
@@ -337,12 +336,10 @@ def register_components(reg):
 
 
 AC_M = {
-    "adj": ADJN,
+    "adj": ADJN, "R": "lambda a, b: comp(a) == comp(b)",
     "V": "lambda x: self.nodes[x].visited",
 }
 R_REQ = [
-    "forall(STR, lambda a: R(a, a)) and forall([STR, STR], lambda a, b: implies(R(a, b), R(b, a))) and "
-    "forall([STR, STR, STR], lambda a, b, c: implies(R(a, b) and R(b, c), R(a, c)))",
     "forall([STR, STR, INT, INT], lambda a, b, s, ov: implies(a in self.nodes and (b, s, ov) in self.nodes[a].start, R(a, b)))",
     "forall([STR, STR, INT, INT], lambda a, b, s, ov: implies(a in self.nodes and (b, s, ov) in self.nodes[a].end, R(a, b)))",
 ]
@@ -354,7 +351,7 @@ def register_all_components(reg):
                      notes="caller view: sets every node's visited flag (the body mutates the nodes through the dict's values view: aliasing, not modelled)"))
     reg.add(Contract(
         file=GFA, func="GFA.all_components", params=dict(self=GFAT), returns=ListT(SetT(STR)), modifies=["self"],
-        types=dict(STR=STR, INT=INT), ufuns={"R": ([STR, STR], BOOL)}, spec_funcs=AC_M,
+        types=dict(STR=STR, INT=INT), ufuns={"comp": ([STR], INT)}, spec_funcs=AC_M,
         ghost=dict(rep=MapT(INT, STR), comp_of=MapT(STR, INT)), locals=dict(connected_comp=ListT(SetT(STR))),
         requires=[
             "forall(STR, lambda x: implies(x in self.nodes, not self.nodes[x].visited))",
@@ -383,7 +380,7 @@ def register_all_components(reg):
 
 
 DFS_M = {
-    "adj": ADJN,
+    "adj": ADJN, "R": "lambda a, b: comp(a) == comp(b)",
     "stacked": "lambda y: 0 <= sidx[y] < len(stack) and stack[sidx[y]] == y",
 }
 DFS_INV = {
@@ -399,16 +396,23 @@ DFS_INV = {
 def register_dfs(reg):
     reg.add(Contract(
         file=GFA, func="GFA.dfs", params=dict(self=GFAT, start_node=STR), returns=ListT(STR), pure=True,
-        types=dict(STR=STR, INT=INT), ufuns={"R": ([STR, STR], BOOL), "nbrpos": ([Node, STR], INT)}, spec_funcs=DFS_M,
-        ghost=dict(sidx=MapT(STR, INT), opos=MapT(STR, INT)),
-        ghost_at={"before:if start_node not in self": "opos = const_map(opos, 0)", "after:stack = [start_node]": "sidx[start_node] = 0", "after:stack.append(neighbour)": "sidx[neighbour] = len(stack) - 1",
+        types=dict(STR=STR, INT=INT), ufuns={"comp": ([STR], INT), "nbrpos": ([Node, STR], INT)}, spec_funcs=DFS_M,
+        ghost=dict(sidx=MapT(STR, INT), opos=MapT(STR, INT), ks0=ListT(STR)),
+        ghost_at={"before:if start_node not in self": "opos = const_map(opos, 0)\nks0 = keys(self.nodes)",
+                   "after:stack = [start_node]": "sidx[start_node] = 0", "after:stack.append(neighbour)": "sidx[neighbour] = len(stack) - 1",
                   "after:ordered_dfs_out.append(s)": "opos[s] = len(ordered_dfs_out) - 1"},
         locals=dict(stack=ListT(STR), dfs_out=SetT(STR), ordered_dfs_out=ListT(STR)),
-        requires=["forall([STR, STR], lambda a, b: implies(a in self.nodes and adj(self, a, b), b in self.nodes and adj(self, b, a)))"] + R_REQ,
+        requires=list(wf_closed("self").values()) + R_REQ,   # no dangling ids (the adjacency invariant's closedness half)
+        assert_at={"before:return [list(self.nodes.keys())[0]]": {
+            "the-only-node-is-the-start-node": "forall(STR, lambda y: implies(y in self.nodes, y == start_node))",
+            "its-links-are-self-links": "forall([STR, INT, INT], lambda b, s, ov: implies((b, s, ov) in self.nodes[start_node].start or (b, s, ov) in self.nodes[start_node].end, b == start_node))",
+            "the-listed-key-is-the-start-node": "ks0[0] == start_node and len(ks0) == 1"}},
         loops={
             1: Loop(fingerprint="while stack", invariant=dict(DFS_INV, **{
                 "closed-or-stacked": "forall([STR, STR], lambda x, y: implies(x in dfs_out and adj(self, x, y), y in dfs_out or stacked(y)))"})),
-            2: Loop(index="it2", seq_name="nbrs", fingerprint="for neighbour in self[s].neighbors()", invariant=dict(DFS_INV, **{
+            2: Loop(index="it2", seq_name="nbrs", fingerprint="for neighbour in self[s].neighbors()",
+                    pres_from={"neighbours-are-adjacent": ["loop2:neighbours-are-adjacent"], "every-adjacent-node-is-listed": ["loop2:every-adjacent-node-is-listed"]},
+                    invariant=dict(DFS_INV, **{
                 "closed-or-stacked-others": "forall([STR, STR], lambda x, y: implies(x in dfs_out and x != s and adj(self, x, y), y in dfs_out or stacked(y)))",
                 "this-node-so-far": "s in dfs_out and forall(lambda t: implies(0 <= t < it2, nbrs[t] in dfs_out or stacked(nbrs[t])))",
                 "neighbours-are-adjacent": "forall(lambda t: implies(0 <= t < len(nbrs), adj(self, s, nbrs[t]) and nbrs[t] in self.nodes and R(start_node, nbrs[t])))",
